@@ -54,6 +54,15 @@ theorem C02_history (cfg : Cfg) (D : Dict) (ops : List Op) (hok : OpsOk cfg { di
   have hg := (C01_encode_exact cfg D ops hok h24).2.2
   exact C02_roundtrip cfg D.lookup m hg hh hty h24 hd
 
+/-- in the operation machine: re-encoding and decoding a built message is the identity on it -/
+theorem C02_reencode_fixpoint (cfg : Cfg) (s : MState) (hg : s.msg.Good) (hh : s.msg.HeaderOk)
+    (hty : TypedList s.dict.lookup s.msg.avps) (h24 : s.msg.length < 16777216)
+    (hd : depthList s.msg.avps ≤ cfg.limit) :
+    (s.step cfg .reencode).1.msg = s.msg ∧ (s.step cfg .reencode).2 = .ok := by
+  obtain ⟨h1, h2⟩ := C02_roundtrip cfg s.dict.lookup s.msg hg hh hty h24 hd
+  simp only [MState.step, h1, h2]
+  exact ⟨trivial, trivial⟩
+
 /-- **what is encoded is what an independent reader reads.** The octets produced for a consistent, typed message parse -
 in the sense of the independent relation `Spec.Parses`, which does not mention the model - as exactly the content of
 that message; by `C03_unique` as nothing else. Encoder and decoder therefore cannot share a consistent but wrong
